@@ -52,13 +52,13 @@ META = dict(
                           'text_branches_checked': 15000, 'text_segments_checked': 60000, 'closed_branch_marks': 4000,
                           'open_branches_without_mark': 10000,
                           'nodes_sentence': 25000, 'nodes_world': 18000, 'nodes_designation': 22000, 'nodes_access': 1900,
-                          'nodes_closure': 1900, 'nodes_quit': 150, 'nodes_ellipsis': 1600, 'logics': 57},
+                          'nodes_closure': 1900, 'nodes_quit': 150, 'nodes_ellipsis': 1600, 'logics': 52},
                 'thorough': {'renderings': 500000, 'tableaux': 30000, 'tableaux_valid': 5000, 'tableaux_invalid': 15000,
                              'tableaux_premature': 6000, 'determinism_checks': 350000, 'text_oracle_checks': 60000,
                              'text_branches_checked': 250000, 'text_segments_checked': 1000000, 'closed_branch_marks': 100000,
                              'open_branches_without_mark': 120000,
                              'nodes_sentence': 450000, 'nodes_world': 350000, 'nodes_designation': 450000,
-                             'nodes_access': 25000, 'nodes_closure': 55000, 'nodes_quit': 1000, 'nodes_ellipsis': 2500, 'logics': 57}},
+                             'nodes_access': 25000, 'nodes_closure': 55000, 'nodes_quit': 1000, 'nodes_ellipsis': 2500, 'logics': 52}},
     budget=dict(quick=600, thorough=3600),
     unit_timeout=dict(quick=400, thorough=2400),
 )
